@@ -6,6 +6,7 @@ import (
 	"bytes"
 	"encoding/gob"
 	"fmt"
+	"math/big"
 	"os"
 	"path/filepath"
 	"sort"
@@ -323,14 +324,37 @@ func c13Migration() vh.Unit {
 	return vh.Unit{Name: "migration", Run: func(u *vh.U) {
 		vsched.SetVirtualClock(true)
 		families := []string{"set a hg", "upd a a 3", "link W1 a", "addab W1 9", "set b cl;addnb b 4"}
+		// bulk > 0: additionally that many nodes with 128-hex ids (as real enode ids are), each with a
+		// peer set and a trial balance, and nonce keys of the same length - a database of realistic size
+		type mcase struct{ mask, version, nNonces, bulk int }
+		var cases []mcase
 		for mask := 0; mask < 1<<len(families); mask++ {
 			for _, version := range []int{0, 1, 2} {
 				for nNonces := 0; nNonces <= 2; nNonces++ {
-					if u.Expired() {
-						return
-					}
 					if !u.Thorough() && (mask+version+nNonces)%3 != 0 && mask != (1<<len(families))-1 {
 						continue
+					}
+					cases = append(cases, mcase{mask, version, nNonces, 0})
+				}
+			}
+		}
+		for _, bulk := range []int{40, 120, 300} {
+			for _, version := range []int{0, 1, 2} {
+				for _, nNonces := range []int{1, 3, 150} {
+					if !u.Thorough() && bulk == 300 && nNonces != 3 {
+						continue
+					}
+					cases = append(cases, mcase{(1 << len(families)) - 1, version, nNonces, bulk})
+				}
+			}
+		}
+		hexID := func(prefix string, i int) string { return fmt.Sprintf("%s%0126x", prefix, i) }
+		{
+			{
+				for _, c := range cases {
+					mask, version, nNonces, bulk := c.mask, c.version, c.nNonces, c.bulk
+					if u.Expired() {
+						return
 					}
 					base := vh.Scratch("c13m-")
 					func() {
@@ -349,6 +373,12 @@ func c13Migration() vh.Unit {
 						}
 						for _, op := range ops {
 							vh.ApplyStoreOp(st, op)
+						}
+						for i := 0; i < bulk; i++ {
+							id := store.NodeID(hexID("4e", i))
+							st.SetNode(store.Node{ID: id, Kind: "geth", IsHost: i%2 == 0, LastSeen: vsched.Now()})
+							st.UpdateNodePeers(id, []string{hexID("4e", (i+1)%bulk)}, uint64(i))
+							st.AddNodeBalance(id, big.NewInt(int64(1000+i)))
 						}
 						st.Close()
 						// rewrite the format version and plant old-style nonce keys with the raw API
@@ -370,7 +400,11 @@ func c13Migration() vh.Unit {
 								var buf bytes.Buffer
 								n := int64(1000 + i)
 								gob.NewEncoder(&buf).Encode(&n)
-								txn.Set([]byte(fmt.Sprintf("vip:nonce:id%d", i)), buf.Bytes())
+								key := fmt.Sprintf("vip:nonce:id%d", i)
+								if bulk > 0 {
+									key = "vip:nonce:" + hexID("4e", i)
+								}
+								txn.Set([]byte(key), buf.Bytes())
 							}
 							txn.Set([]byte("other:foreign"), []byte("keep"))
 							return nil
@@ -390,7 +424,7 @@ func c13Migration() vh.Unit {
 						for round := 0; round < 2; round++ {
 							st2, err := vh.OpenBadgerDir(base)
 							if err != nil {
-								u.Violate("migration/open-failed", fmt.Sprintf("version %d, families %05b, %d nonces: %v", version, mask, nNonces, err), nil)
+								u.Violate("migration/open-failed", fmt.Sprintf("version %d, families %05b, %d nonces, %d bulk nodes: %v", version, mask, nNonces, bulk, err), nil)
 								return
 							}
 							after := map[string]string{}
@@ -406,7 +440,7 @@ func c13Migration() vh.Unit {
 						u.R.States++
 						u.R.Transitions += 2
 						u.R.Traces++
-						u.Observe(fmt.Sprintf("v%d n%d k%d", version, nNonces, len(before)))
+						u.Observe(fmt.Sprintf("v%d n%d k%d bulk%d", version, nNonces, len(before), bulk))
 						after := dumps[0]
 						var v2 bytes.Buffer
 						two := 2
@@ -423,11 +457,11 @@ func c13Migration() vh.Unit {
 							isNonce := strings.HasPrefix(k, "vip:nonce:")
 							switch {
 							case isNonce && version < 2 && ok:
-								u.Violate("migration/old-nonces-kept", fmt.Sprintf("version %d -> 2: key %s survived", version, k), nil)
+								u.Violate("migration/old-nonces-kept", fmt.Sprintf("version %d -> 2 (%d nonce keys, %d keys in all): key %s survived", version, nNonces, len(before), k), nil)
 								return
 							case isNonce && version < 2:
 							case !ok || got != fmt.Sprintf("%x", v):
-								u.Violate("migration/data-touched", fmt.Sprintf("opening a version-%d database changed key %s (present afterwards: %v)", version, k, ok), nil)
+								u.Violate("migration/data-touched", fmt.Sprintf("opening a version-%d database (%d nonce keys, %d keys in all) changed key %s (present afterwards: %v)", version, nNonces, len(before), k, ok), nil)
 								return
 							}
 						}
@@ -447,7 +481,7 @@ func c13Migration() vh.Unit {
 				}
 			}
 		}
-		u.Sample("databases of version 0/1/2 with every subset of {node, peers, link, balance, trial} and 0-2 old nonce keys, opened twice")
+		u.Sample("databases of version 0/1/2 with every subset of {node, peers, link, balance, trial} and 0-2 old nonce keys, plus databases with 40/120/300 nodes (128-hex ids) and 1/3/150 old nonce keys, opened twice")
 	}}
 }
 
